@@ -212,7 +212,7 @@ impl Check for C15 {
     fn run_shard(&self, ctx: &Ctx, rec: &mut Rec) {
         let total = match ctx.tier {
             Tier::Quick => 5000,
-            Tier::Thorough => 30000,
+            Tier::Thorough => 120000,
         };
         prop_loop(ctx, rec, "gen", strategy(), ctx.share(total), judge);
     }
